@@ -696,6 +696,58 @@ async fn s_pull_publish_race(h: &mut Host) -> Result<(), Fail> {
     Ok(())
 }
 
+
+/// C01 / C03 with several StreamingPull streams on ONE subscription: every published message reaches exactly one of
+/// them (none is lost, none is held by two streams at once), each response respects its stream's limit (C15)
+async fn s_multi_stream(h: &mut Host) -> Result<(), Fail> {
+    let (t, s) = ("projects/p/topics/ms", "projects/p/subscriptions/ms");
+    h.topic(t).await.map_err(c10("CreateTopic of an absent, well-formed name"))?;
+    h.sub(s, t, 0, None).await.map_err(c10("CreateSubscription of an absent name on an existing topic of the same project"))?;
+    let (seen_tx, mut seen_rx) = tokio::sync::mpsc::unbounded_channel::<(usize, String, usize)>();
+    let mut consumers = Vec::new();
+    for k in 0..3usize {
+        let (tx, mut rx) = tokio::sync::mpsc::channel::<StreamingPullRequest>(64);
+        let first = StreamingPullRequest { subscription: s.to_string(), ack_ids: vec![], modify_deadline_seconds: vec![], modify_deadline_ack_ids: vec![], stream_ack_deadline_seconds: 0, client_id: format!("c{}", k), max_outstanding_messages: 5, max_outstanding_bytes: 100_000_000 };
+        let mut inbound = h.subscriber.streaming_pull(async_stream::stream! { yield first; while let Some(r) = rx.recv().await { yield r; } }).await.map_err(setup("streaming_pull"))?.into_inner();
+        let seen_tx = seen_tx.clone();
+        consumers.push(tokio::spawn(async move {
+            while let Ok(Some(r)) = inbound.message().await {
+                let n = r.received_messages.len();
+                let acks: Vec<String> = r.received_messages.iter().map(|m| m.ack_id.clone()).collect();
+                for m in r.received_messages.iter() { let _ = seen_tx.send((k, m.message.as_ref().map(|x| x.message_id.clone()).unwrap_or_default(), n)); }
+                // hold the lease for a moment before acknowledging: the other streams must not get these messages meanwhile
+                tokio::time::sleep(Duration::from_millis(30)).await;
+                if tx.send(StreamingPullRequest { subscription: String::new(), ack_ids: acks, modify_deadline_seconds: vec![], modify_deadline_ack_ids: vec![], stream_ack_deadline_seconds: 0, client_id: String::new(), max_outstanding_messages: 0, max_outstanding_bytes: 0 }).await.is_err() { break; }
+            }
+        }));
+    }
+    tokio::time::sleep(Duration::from_millis(150)).await;
+    let mut all = Vec::new();
+    for b in 0..4u8 { all.extend(h.publish(t, (0..10u8).map(|i| (vec![b, i], HashMap::new())).collect()).await.map_err(setup("publish"))?); }
+    let mut got: HashMap<String, usize> = HashMap::new();
+    let mut result = Ok(());
+    let wait = async {
+        while got.len() < all.len() {
+            match seen_rx.recv().await {
+                Some((k, id, n)) => {
+                    if n > 5 { return Err(f("C15", format!("a StreamingPull response carries {} messages, max_outstanding_messages = 5", n))); }
+                    if let Some(k0) = got.insert(id.clone(), k) { return Err(f("C03+C02", format!("message {} was delivered to stream {} and, before any deadline passed, again to stream {}", id, k0, k))); }
+                }
+                None => break,
+            }
+        }
+        Ok(())
+    };
+    match tokio::time::timeout(Duration::from_secs(8), wait).await {
+        Ok(Err(e)) => result = Err(e),
+        Ok(Ok(())) => {}
+        Err(_) => result = Err(f("C01+C06", format!("3 open StreamingPull streams on one subscription received {} of {} published messages within 8 s", got.len(), all.len()))),
+    }
+    if result.is_ok() { for id in all.iter() { if !got.contains_key(id) { result = Err(f("C01", format!("message {} reached none of the 3 streams", id))); break; } } }
+    for c in consumers { c.abort(); }
+    result
+}
+
 /// C15 (streaming limit) and C17 (inconsistent control messages) on an open StreamingPull
 async fn s_stream_limits(h: &mut Host) -> Result<(), Fail> {
     let (t, s) = ("projects/p/topics/sl", "projects/p/subscriptions/sl");
@@ -763,6 +815,7 @@ pub fn run_all() -> i32 {
         ("long_walk", |h| Box::pin(s_long_walk(h))),
         ("cross_consumers", |h| Box::pin(s_cross_consumers(h))),
         ("stream_concurrent_publish", |h| Box::pin(s_stream_concurrent_publish(h))),
+        ("multi_stream", |h| Box::pin(s_multi_stream(h))),
     ];
     let n = scenarios.len() + multi.len();
     // every scenario runs; each failing one prints its own WITNESS line (the driver picks the one for the property at hand)
